@@ -44,7 +44,9 @@ class IntList:
     def fresh(st, name, sort="int"):
         st.n += 1
         rs = I if sort == "int" else R
-        return IntList(SR(st.fresh_int("len_" + name)), z3.Const("%s!%d" % (name, st.n), z3.ArraySort(I, rs)), sort)
+        ln = SR(st.fresh_int("len_" + name))
+        st.assume(ln.t >= 0)
+        return IntList(ln, z3.Const("%s!%d" % (name, st.n), z3.ArraySort(I, rs)), sort)
 
     @staticmethod
     def of(x, sort="int"):
